@@ -356,8 +356,12 @@ def run(tier):
             op = t["ops"][failed[0] - 1]
             chk.violation(failed[1], feat, {"trace": t, "failed": failed},
                           f"history {tid} op#{failed[0]} {op['op']} {op['names']}: clause {failed[1]} at event {failed[2]}")
+    # ---- 3. the step-by-step API (PandoraManual.tla) ------------------------------------------------------------------
+    from vp.drivers.c01_manual import run_manual
+    run_manual(chk, tier, rng, tables, L, R)
     chk.rule = ("histories of check/run operations on real PandoraMachine objects: every accepted pipeline up to "
                 "length 3 (quick) / 4 (thorough) over the ten kinds plus random longer walks of the documented automaton, "
                 "rejected pipelines, suffix and unknown-method variants, dirty-machine and other-machine histories; "
-                "distinct = distinct (history shape, pipeline, variant)")
+                "distinct = distinct (history shape, pipeline, variant); plus hand-driven sessions of the step-by-step API "
+                "(run_prepare, machine.run of any step in any state, run_exit; 1-3 scales, with / without right products)")
     return chk.finish()
